@@ -120,6 +120,11 @@ class EqShape:
         self.unknown: list[ast.AST] = []
         self.guard_ok = False
         self.guard_problem: tuple[ast.AST, str] | None = None
+        # fields compared only through a projection f(self.x) == f(other.x)
+        # (len, sorted, set, a derived property): implied by equality, so
+        # harmless as an extra conjunct, but they do not cover the field
+        self.weak: dict[str, str] = {}
+        self.len_guard: set[str] = set()
 
 
 def _side(node, self_names, other_names):
@@ -254,7 +259,81 @@ def analyse_eq(ctx, fi: FuncInfo) -> EqShape:
                 if a and b and {a, b} == (self_names | other_names):
                     sh.fields |= set(names)
                     return
+            if positive and zipped_all(node, g):
+                return
+        if projection(node, positive):
+            return
         sh.unknown.append(node)
+
+    def projection(node, positive):
+        """f(self.x) == f(other.x) with the same f on both sides."""
+        if not (isinstance(node, ast.Compare) and len(node.ops) == 1):
+            return False
+        want = ast.Eq if positive else ast.NotEq
+        if not isinstance(node.ops[0], want):
+            return False
+        l, r = node.left, node.comparators[0]
+
+        def strip(e):
+            """(shape text with the operand field replaced by '@', who, field)"""
+            hits = [x for x in ast.walk(e) if _side(x, self_names, other_names)]
+            if len(hits) != 1:
+                return None
+            who, attr = _side(hits[0], self_names, other_names)
+            txt = ast.unparse(e).replace(ast.unparse(hits[0]), "@")
+            return txt, who, attr
+
+        a, b = strip(l), strip(r)
+        if not (a and b) or a[0] != b[0] or {a[1], b[1]} != {"self", "other"} or a[2] != b[2] or a[0] == "@":
+            return False
+        sh.weak[a[2]] = a[0]
+        if a[0] == "len(@)":
+            sh.len_guard.add(a[2])
+        return True
+
+    def zipped_all(node, g):
+        """all(a == b for A, B in zip(self.f, other.f) [for a, b in zip(A, B)])"""
+        gens = g.generators
+        if any(x.ifs for x in gens):
+            return False
+        prev = None
+        field = None
+        for depth, gen in enumerate(gens):
+            it = gen.iter
+            if not (
+                isinstance(it, ast.Call) and isinstance(it.func, ast.Name) and it.func.id == "zip" and len(it.args) == 2
+                and isinstance(gen.target, ast.Tuple) and len(gen.target.elts) == 2
+                and all(isinstance(t, ast.Name) for t in gen.target.elts)
+            ):
+                return False
+            strict = any(k.arg == "strict" and isinstance(k.value, ast.Constant) and k.value.value is True for k in it.keywords)
+            if depth == 0:
+                sa, sb = _side(it.args[0], self_names, other_names), _side(it.args[1], self_names, other_names)
+                if not (sa and sb) or {sa[0], sb[0]} != {"self", "other"} or sa[1] != sb[1]:
+                    return False
+                field = sa[1]
+                guarded = strict or field in sh.len_guard
+            else:
+                if [ast.unparse(x) for x in it.args] != prev:
+                    return False
+                guarded = strict
+            if not guarded:
+                sh.problems.append((
+                    it,
+                    f"`{ast.unparse(it)}` pairs the two sequences only up to the shorter one and their lengths are not "
+                    "compared: when one list is a prefix of the other (same total count, operations distributed "
+                    "differently over the machines) the objects compare equal",
+                ))
+                return True
+            prev = [t.id for t in gen.target.elts]
+        elt = g.elt
+        if not (
+            isinstance(elt, ast.Compare) and len(elt.ops) == 1 and isinstance(elt.ops[0], ast.Eq)
+            and sorted([ast.unparse(elt.left), ast.unparse(elt.comparators[0])]) == sorted(prev or [])
+        ):
+            return False
+        sh.fields.add(field)
+        return True
 
     def pair(node, a, b):
         sa, sb = _side(a, self_names, other_names), _side(b, self_names, other_names)
@@ -268,6 +347,11 @@ def analyse_eq(ctx, fi: FuncInfo) -> EqShape:
             sh.problems.append(
                 (node, f"compares field {sa[1]!r} of one operand with field {sb[1]!r} of the other")
             )
+            return
+        if sa[1] not in fields and ci is not None and ctx.repo.method(ci, sa[1]) is not None:
+            # a derived property (num_scheduled_operations, makespan ...): a
+            # projection of the content - harmless extra conjunct, covers nothing
+            sh.weak[sa[1]] = "@ (derived property)"
             return
         if sa[1] in CLASS_LEVEL or sa[1] not in fields:
             sh.problems.append(
@@ -476,10 +560,15 @@ def run(ctx):
                 f"({ast.unparse(sh.unknown[0])[:80]!r}); cannot decide field coverage"
             )
         if missing and not sh.problems:
+            weak = {f: sh.weak[f] for alt in missing for f in alt if f in sh.weak}
             chk.violation(
                 "R15.a", eq, None,
                 "content field(s) never compared: "
                 + ", ".join("/".join(sorted(a)) for a in missing)
+                + "".join(
+                    f"; `{f}` is compared only through `{shape.replace('@', 'x.' + f)}`, which identifies different values"
+                    for f, shape in sorted(weak.items())
+                )
                 + f" (compared: {sorted(sh.fields)}"
                 + "".join(f"; {f} is {LOSSY_VIEWS[f]}" for f in sorted(sh.fields) if f in LOSSY_VIEWS)
                 + ")",
